@@ -308,6 +308,39 @@ def factory_lookup(ctx, run):
         got = res[0]["value"] if len(res) == 1 else None
         if not (isinstance(got, Obj) and got.cls == MOD + mq and got.attrs.get("derivative") is d):
             problems.append(f"{dname} -> {getattr(got, 'cls', got)}")
+    # ... and builds it from the derivative as it is NOW: a module asked for after the contract was changed (a strike ladder or a put/call
+    # sweep on one instrument) carries the new strike and flag, not those of a module built earlier for the same object (memoised builders)
+    from ..source import FuncInfo
+    drv = FuncInfo("synthetic.rebuild", g.module, ast.parse(
+        "def history(fac, d, k2, c2):\n    m1 = fac.get_class_from_derivative(d)\n    d.strike = k2\n    d.call = c2\n    m2 = fac.get_class_from_derivative(d)\n    return m1, m2\n").body[0])
+    stale = []
+    for mq, (fam, dname) in MODULES.items():
+        dq = next(c for c in prog.classes if c.endswith("." + dname) and ".instruments.derivative." in c)
+        fac = Obj(FQ, "factory", {"_modules": dict(registry)})
+        k1, k2, c1, c2 = W.fl("d.strike"), W.fl("new.strike"), Sym("d.call", ("bool",)), Sym("new.call", ("bool",))
+        d = Obj(dq, "deriv", {"call": c1, "strike": k1})
+        try:
+            res = [r for r in interp.explore(drv, [fac, d, k2, c2], {}) if not r["raises"]]
+        except Unsupported as ex:
+            raise AnalysisError(f"history 'rebuild' on {dname}: {ex}")
+        if not res:
+            raise AnalysisError(f"history 'rebuild' on {dname}: no non-raising path")
+        for r in res:
+            m1, m2 = r["value"]
+            if not (isinstance(m2, Obj) and m2.cls == MOD + mq):
+                stale.append(f"{dname}: the second module is {getattr(m2, 'cls', m2)}")
+                continue
+            if m2 is m1:
+                stale.append(f"{dname}: the module built before the contract changed is handed out again")
+            if m2.attrs.get("strike") is not k2:
+                stale.append(f"{dname}: module built after d.strike = new.strike carries strike {m2.attrs.get('strike')}")
+            if "call" in m2.attrs and m2.attrs.get("call") is not c2:
+                stale.append(f"{dname}: module built after d.call = new.call carries call {m2.attrs.get('call')}")
+    stale = sorted(set(stale))
+    run.oblige("C07.R5", "history 'rebuild': BlackScholes(d) after d.strike / d.call changed prices the current contract", not stale, "; ".join(stale)[:200])
+    if stale:
+        run.fail(Finding("C07.R5", g.qualname, "history 'rebuild': " + "; ".join(stale)[:400], "a pricing module built from a derivative prices an earlier contract of the same object (strike / call flag of a previous build)",
+                         file=str(prog.modules[g.module].path), line=g.node.lineno, case="rebuild"))
     src = ast.unparse(new.node)
     uses = [n for n in ast.walk(new.node) if isinstance(n, ast.Call) and isinstance(n.func, ast.Attribute) and n.func.attr == "get_class_from_derivative"]
     if len(uses) != 1 or not (uses[0].args and isinstance(uses[0].args[0], ast.Name) and uses[0].args[0].id == "derivative"):
